@@ -481,6 +481,10 @@ def run_decode(case):
         if not seeks or seeks[0] != off:
             raise Violation("decode", f"unexpected first seek {seeks[:1]} for offset {off}", "seek0")
         seeks = seeks[1:]
+    if seeks and seeks[-1] == W.inplace_end(buf, off):
+        # the final repositioning to the end of the name in place is not a pointer hop (it also
+        # happens before an over-long name is refused)
+        seeks = seeks[:-1]
     bound = off
     for s in seeks:
         if not s < bound:
